@@ -3,6 +3,7 @@ import PgFdr.Proofs.C12Design
 import PgFdr.Proofs.C17
 import PgFdr.Proofs.CliQuant
 import PgFdr.Proofs.CliQuantDemo
+import PgFdr.Proofs.CliQuantHeaders
 import Mathlib.Data.Finset.Card
 import Mathlib.Data.List.Dedup
 import Mathlib.Data.Finset.Dedup
@@ -24,7 +25,16 @@ functions they are composed of) is `PgFdr/Model/C12.lean`; it is what the driver
 what `harness/props/C12.py` compares with `quant/maxquant.py:add_precursor_quants`,
 `writers/base.py:append_quant_columns` and the column classes.  Helper lemmas and the auxiliary
 predicates `counted`, `chan`, `hit`, `identifiedIn`, `entersGroup`, `rowCounted` are in
-`PgFdr/Proofs/C12.lean`.  `c` is the PEP cutoff (`cutoffOf` = `C17.cutoff` of the PEP list in the
+`PgFdr/Proofs/C12.lean`; `CliQuant.covers` / `coveredFraction` (closed form of the sequence coverage) in
+`Proofs/CliQuant.lean`; `CliQuant.cellUnder` (the cell under a header string) and `CliQuant.outputTable` in
+`Model/CliQuant.lean`.
+Uniform-layout hypotheses: the channel numbers of a run are those of the FIRST parsed row while every row carries the
+SILAC / reporter values of its own file, and several `--mq_evidence` files with different headers are a legal input.
+The theorems that need "no row has more SILAC values than the first" (`conservation`, `intensity_recompute`,
+`intensity_by_name`, `conservation_design`, `cells_under_named_headers`, `design_cells_under_named_headers`,
+`cli_quant_columns_recompute`) or "every row has the first row's reporter columns" (`tmt_recompute`,
+`cli_quant_columns_recompute`) say so in their doc comments; what the model — like the code — does without them is
+`mixed_layout_refusals`, `intensity_slot_mixed`, `uniform_layout_accepted`.  `c` is the PEP cutoff (`cutoffOf` = `C17.cutoff` of the PEP list in the
 composed run); the per-column theorems hold for every `c`.
 -/
 namespace PgFdr.C12
@@ -32,18 +42,20 @@ open PgFdr.C17 (PepVal)
 
 /-! ## the composed run is made of the functions the theorems below are about -/
 
-/-- the run succeeds exactly when `get_silac_channels` accepts the number of SILAC columns, and
-    then it is `quantifyWith` for that number of channels -/
+/-- the run succeeds exactly when `get_silac_channels` accepts the number of SILAC columns of the first parsed row
+    and no column loop raises on rows of a different SILAC / reporter layout (`layoutError`, see
+    `mixed_layout_refusals`); then it is `quantifyWith` for that number of channels -/
 theorem quantify_ok (rows : List Row) (groups : List (List String)) (level : Rat)
     (ibaq : List (String × Nat)) (o : Output) :
     quantify rows groups level ibaq = .ok o ↔
-      ∃ S, silacChannels (nSilac rows) = .ok S ∧ o = quantifyWith S rows groups level ibaq := by
+      ∃ S, silacChannels (nSilac rows) = .ok S ∧
+        layoutError S (quantifyWith S rows groups level ibaq) = none ∧
+        o = quantifyWith S rows groups level ibaq := by
   unfold quantify
   cases silacChannels (nSilac rows) with
   | error e => simp
   | ok S =>
-    simp only [Except.ok.injEq, exists_eq_left']
-    exact eq_comm
+    simp only [Except.ok.injEq, exists_eq_left', checked_ok]
 
 /-- the reported rows after quantification are the groups with at least one attached precursor, in
     the reported order; the precursor list of each is the identified-precursor filter of its attached
@@ -144,7 +156,11 @@ theorem identified_filter_sublist (c : Rat) (quants : List Row) : (retain c quan
     precursors": slot `e*(1+S)+k` of the flat intensity list (experiment position `e`, `k = 0` the
     experiment's `Intensity`, `k = j+1` its SILAC channel `j`) is the sum of that channel over the
     precursors of experiment `e` that carry an intensity (not NaN) and are match-between-runs rows or
-    within the cutoff -/
+    within the cutoff.
+    UNIFORM-LAYOUT HYPOTHESIS `hs`: no precursor of the list carries more SILAC values than `S` (the number of the
+    FIRST parsed row of the run).  It is necessary — evidence files with different `Intensity L/M/H` columns are read
+    into one run, and a precursor with more values than `S` adds them to the slots of the FOLLOWING experiments;
+    what every slot holds without the hypothesis is `intensity_slot_mixed`. -/
 theorem intensity_recompute (exps : List String) (S : Nat) (c : Rat) (quants : List Row) (e k : Nat)
     (he : e < exps.length) (hk : k ≤ S) (hs : ∀ q ∈ quants, q.silac.length ≤ S) :
     (intensities exps S c quants).getD (e * (1 + S) + k) 0 =
@@ -243,7 +259,11 @@ theorem evidence_ids_sorted_exact (c : Rat) (quants : List Row) :
 
 /-- (TMT channels) slot `e*(3T)+k` of the reporter columns — experiment position `e`, `k`-th of the
     `3T` reporter columns of the evidence file — is the sum of that column over the used precursors of
-    the experiment (NaN `Intensity` plays no role here) -/
+    the experiment (NaN `Intensity` plays no role here).
+    UNIFORM-LAYOUT HYPOTHESIS `ht`: every precursor of the list carries exactly `3*T` reporter values (`T` is fixed
+    by the FIRST parsed row of the run).  Necessary: a precursor from a file with ONE reporter column is broadcast by
+    numpy into all `3*T` cells (`vecAdd`, example `tmtBroadcast` below); every other length makes the real run fail
+    (`mixed_layout_refusals`). -/
 theorem tmt_recompute (exps : List String) (T : Nat) (c : Rat) (quants : List Row) (e k : Nat)
     (he : e < exps.length) (hk : k < 3 * T) (ht : ∀ q ∈ quants, q.tmt.length = 3 * T) :
     (tmtSums exps T c quants).getD (e * (3 * T) + k) 0 =
@@ -297,15 +317,22 @@ theorem cutoff_is_c17 (rows : List Row) (groups : List (List String)) (level : R
     `total_is_sum_of_experiments`, Σ_g Σ_e intensity g e) is the sum of the intensities of the evidence
     rows that enter some group (`rowCounted`: attached to a group, identified there, carrying an
     intensity, MBR or within the cutoff), each taken once — nothing is lost and nothing is counted
-    twice.  Hypothesis: every row has the same SILAC columns (they come from one header). -/
+    twice.
+    UNIFORM-LAYOUT HYPOTHESIS `huniform`: no row the parser yields carries more SILAC values than the FIRST one
+    (whose number fixes the slot width, quant/maxquant.py:68) — true with equality when all evidence files have the
+    same `Intensity L/M/H` columns.  It is NOT implied by the success of the run and it is necessary: several
+    `--mq_evidence` files with different headers are read into one run; a label-free file followed by a SILAC file
+    gives `S = 0` and rows with two SILAC values, whose `L` value is added to the NEXT experiment's `Intensity`
+    slot (see `intensity_slot_mixed` and the example `spillRows` below: total 120, Σ intensity 110), unless the row
+    sits in the last experiments, where the run is refused (`mixed_layout_refusals`). -/
 theorem conservation (rows : List Row) (groups : List (List String)) (level : Rat)
     (ibaq : List (String × Nat)) (o : Output)
     (hrun : quantify rows groups level ibaq = .ok o)
-    (huniform : ∀ r ∈ parsed rows, (r.silac.length : Int) = nSilac rows) :
+    (huniform : ∀ r ∈ parsed rows, (r.silac.length : Int) ≤ nSilac rows) :
     (o.groups.map (·.total)).sum =
       (((parsed rows).filter (rowCounted rows groups (cutoffOf rows groups level))).map
         (fun r => r.intensity.getD 0)).sum := by
-  obtain ⟨S, hS, rfl⟩ := (quantify_ok rows groups level ibaq o).mp hrun
+  obtain ⟨S, hS, -, rfl⟩ := (quantify_ok rows groups level ibaq o).mp hrun
   have hlen : ∀ r ∈ parsed rows, r.silac.length ≤ S := by
     intro r hr
     have h1 := huniform r hr
@@ -352,6 +379,122 @@ theorem conservation (rows : List Row) (groups : List (List String)) (level : Ra
     (fun r i j => entersGroup_unique rows groups c r i j)]
   rfl
 
+/-! ## evidence files with different SILAC / reporter columns
+
+`num_silac_channels` / `num_tmt_channels` come from the FIRST row the parser yields (quant/maxquant.py:62-69); the rows
+of a later `--mq_evidence` file carry the columns of THEIR header.  The model follows the code in every such
+situation: where a column loop raises the run is refused (`layoutError`), otherwise the slots are filled exactly as
+the loops fill them. -/
+
+/-- exactly when the run is refused after `get_silac_channels` accepted `S`:
+    * `silac_index_out_of_range` (Python: `IndexError` in `_get_intensities`, columns/sum_and_ibaq.py:137-142) iff some
+      written group has an identified precursor that is added (intensity not NaN, MBR or within the cutoff), carries
+      SILAC values, and whose last SILAC slot `e*(1+S) + len` is not below the `E*(1+S)` slots of the list — e.g.
+      label-free file first (`S = 0`), then a SILAC row in the last experiment;
+    * `tmt_shape_mismatch` (Python: `ValueError` "operands could not be broadcast" / `TypeError` for `None` in
+      `_get_tmt_intensities`, columns/tmt.py:71-73) iff there is no such precursor, the run has reporter channels
+      (`nTmt > 0`) and some added precursor's reporter vector has neither `3*nTmt` values nor exactly one -/
+theorem mixed_layout_refusals (S : Nat) (o : Output) :
+    (layoutError S o = some "silac_index_out_of_range" ↔
+      ∃ g ∈ o.groups, ∃ q ∈ g.quants, q.intensity.isSome = true ∧ used o.cutoff q = true ∧ q.silac ≠ [] ∧
+        ∃ e, expIdx o.experiments q.experiment = some e ∧
+          o.experiments.length * (1 + S) ≤ e * (1 + S) + q.silac.length) ∧
+    (layoutError S o = some "tmt_shape_mismatch" ↔
+      (¬ ∃ g ∈ o.groups, ∃ q ∈ g.quants, silacRaises o.experiments S o.cutoff q = true) ∧ o.nTmt > 0 ∧
+        ∃ g ∈ o.groups, ∃ q ∈ g.quants, used o.cutoff q = true ∧ (expIdx o.experiments q.experiment).isSome = true ∧
+          q.tmt.length ≠ 3 * o.nTmt.toNat ∧ q.tmt.length ≠ 1) ∧
+    (layoutError S o = none ∨ layoutError S o = some "silac_index_out_of_range" ∨
+      layoutError S o = some "tmt_shape_mismatch") := by
+  have hsil : (o.groups.any (fun g => g.quants.any (silacRaises o.experiments S o.cutoff)) = true) ↔
+      ∃ g ∈ o.groups, ∃ q ∈ g.quants, silacRaises o.experiments S o.cutoff q = true := by
+    simp only [List.any_eq_true]
+  have hone : ∀ q, silacRaises o.experiments S o.cutoff q = true ↔
+      (q.intensity.isSome = true ∧ used o.cutoff q = true ∧ q.silac ≠ [] ∧
+        ∃ e, expIdx o.experiments q.experiment = some e ∧
+          o.experiments.length * (1 + S) ≤ e * (1 + S) + q.silac.length) := by
+    intro q
+    unfold silacRaises
+    cases expIdx o.experiments q.experiment with
+    | none => simp
+    | some e => simp [and_assoc]
+  have htm : (o.groups.any (fun g => g.quants.any (tmtRaises o.experiments o.nTmt.toNat o.cutoff)) = true) ↔
+      ∃ g ∈ o.groups, ∃ q ∈ g.quants, used o.cutoff q = true ∧ (expIdx o.experiments q.experiment).isSome = true ∧
+          q.tmt.length ≠ 3 * o.nTmt.toNat ∧ q.tmt.length ≠ 1 := by
+    simp only [List.any_eq_true, tmtRaises, Bool.and_eq_true, bne_iff_ne, ne_eq, and_assoc]
+  unfold layoutError
+  by_cases h1 : o.groups.any (fun g => g.quants.any (silacRaises o.experiments S o.cutoff)) = true
+  · rw [if_pos h1]
+    refine ⟨⟨fun _ => ?_, fun _ => rfl⟩, ⟨fun h => by simp at h, fun h => absurd (hsil.mp h1) h.1⟩, Or.inr (Or.inl rfl)⟩
+    obtain ⟨g, hg, q, hq, hr⟩ := hsil.mp h1
+    exact ⟨g, hg, q, hq, (hone q).mp hr⟩
+  · rw [if_neg h1]
+    have hno : ¬ ∃ g ∈ o.groups, ∃ q ∈ g.quants, silacRaises o.experiments S o.cutoff q = true := fun h => h1 (hsil.mpr h)
+    by_cases h2 : (decide (o.nTmt > 0) &&
+        o.groups.any (fun g => g.quants.any (tmtRaises o.experiments o.nTmt.toNat o.cutoff))) = true
+    · rw [if_pos h2]
+      simp only [Bool.and_eq_true, decide_eq_true_eq] at h2
+      refine ⟨⟨fun h => by simp at h, ?_⟩, ⟨fun _ => ⟨hno, h2.1, htm.mp h2.2⟩, fun _ => rfl⟩, Or.inr (Or.inr rfl)⟩
+      rintro ⟨g, hg, q, hq, hr⟩
+      exact absurd ⟨g, hg, q, hq, (hone q).mpr hr⟩ hno
+    · rw [if_neg h2]
+      refine ⟨⟨fun h => by simp at h, ?_⟩, ⟨fun h => by simp at h, ?_⟩, Or.inl rfl⟩
+      · rintro ⟨g, hg, q, hq, hr⟩
+        exact absurd ⟨g, hg, q, hq, (hone q).mpr hr⟩ hno
+      · rintro ⟨-, hT, hex⟩
+        exact absurd (by simp only [Bool.and_eq_true, decide_eq_true_eq]; exact ⟨hT, htm.mpr hex⟩) h2
+
+/-- under the two uniform-layout hypotheses no run is refused for its layout: every identified precursor of a written
+    group is a row the parser yielded, so none has more SILAC values than `S` or another number of reporter values
+    than `3 * nTmt` (`exps` arbitrary: the run without and with a design) -/
+theorem uniform_layout_accepted (exps : List String) (S : Nat) (rows : List Row) (groups : List (List String))
+    (level : Rat) (ibaq : List (String × Nat))
+    (huniform : ∀ r ∈ parsed rows, r.silac.length ≤ S)
+    (huniformTmt : ∀ r ∈ parsed rows, (r.tmt.length : Int) = 3 * nTmt rows) :
+    layoutError S (quantifyWithExps exps S rows groups level ibaq) = none := by
+  have hsub : ∀ g ∈ (quantifyWithExps exps S rows groups level ibaq).groups, ∀ q ∈ g.quants, q ∈ parsed rows := by
+    intro g hg q hq
+    have hg' : g ∈ (keptIdx rows groups).map (fun i => groupOut exps S (nTmt rows) (cutoffOf rows groups level) ibaq
+        (groups.getD i []) (retain (cutoffOf rows groups level) (attached rows groups i))) := hg
+    obtain ⟨i, -, rfl⟩ := List.mem_map.mp hg'
+    exact ((mem_attached rows groups i q).mp ((mem_retain _ _ q).mp hq).1).1
+  apply layoutError_eq_none
+  · intro g hg q hq
+    exact huniform q (hsub g hg q hq)
+  · intro hT g hg q hq
+    have h1 := huniformTmt q (hsub g hg q hq)
+    have h2 : (quantifyWithExps exps S rows groups level ibaq).nTmt = nTmt rows := rfl
+    rw [h2] at hT ⊢
+    omega
+
+/-- every slot of the flat intensity list WITHOUT a layout hypothesis (the slot arithmetic of `_get_intensities` on
+    rows of any SILAC width): slot `j` is the sum, over the precursors that are added (intensity not NaN, MBR or
+    within the cutoff, experiment position `e'`), of the precursor's `Intensity` if `j = e'*(1+S)` plus its
+    `(j - e'*(1+S) - 1)`-th SILAC value if `j > e'*(1+S)` — so a precursor with more than `S` SILAC values
+    contributes to the slots of the experiments after its own (first to their `Intensity` slot) -/
+theorem intensity_slot_mixed (exps : List String) (S : Nat) (c : Rat) (quants : List Row) (j : Nat)
+    (hj : j < exps.length * (1 + S)) :
+    (intensities exps S c quants).getD j 0 =
+      ((quants.filter (fun q => q.intensity.isSome && (isMbr q.pep || leCut q.pep c))).map (fun q =>
+        match expIdx exps q.experiment with
+        | some e' => (if e' * (1 + S) = j then q.intensity.getD 0 else 0) +
+            (if e' * (1 + S) + 1 ≤ j then q.silac.getD (j - (e' * (1 + S) + 1)) 0 else 0)
+        | none => 0)).sum := by
+  rw [intensities_slot_general, ← sum_map_ite]
+  congr 1
+  apply List.map_congr_left
+  intro q _
+  unfold contrib
+  cases hq : q.intensity with
+  | none => simp
+  | some x =>
+    have hu : used c q = (isMbr q.pep || leCut q.pep c) := rfl
+    by_cases hb : (isMbr q.pep || leCut q.pep c) = true
+    · simp only [hu, hb, if_true, Option.isSome_some, Bool.and_self, Option.getD_some]
+      cases expIdx exps q.experiment with
+      | none => rfl
+      | some e' => simp only [hj, and_true]
+    · simp [hu, hb]
+
 /-! ## the command line: `python -m picked_group_fdr --do_quant --skip_lfq` on MaxQuant evidence
 
 `PgFdr.CliQuant.quantRun` (Model/CliQuant.lean, driver op `cli_quant`, compared cell by cell with the table the real
@@ -361,7 +504,7 @@ theorems below carry the per-column theorems of this file over to the rows of th
 
 /-- the SILAC lists of a run with uniform SILAC columns are not longer than the accepted channel number -/
 private theorem silac_le_of_uniform (rows : List Row) (S : Nat) (hS : silacChannels (nSilac rows) = .ok S)
-    (huniform : ∀ r ∈ parsed rows, (r.silac.length : Int) = nSilac rows) :
+    (huniform : ∀ r ∈ parsed rows, (r.silac.length : Int) ≤ nSilac rows) :
     ∀ r ∈ parsed rows, r.silac.length ≤ S := by
   intro r hr
   have h1 := huniform r hr
@@ -381,7 +524,7 @@ private theorem silac_le_of_uniform (rows : List Row) (S : Nat) (hS : silacChann
 /-- "Per group and experiment the summed intensity, iBAQ …, unique-peptide counts, identification type and evidence
     IDs equal a direct recomputation from those precursors, the total intensity is the sum over experiments" — for
     the table the COMMAND LINE writes: for every completed run with `--do_quant --skip_lfq` and every written
-    quantification table `t` (evidence rows with the header's SILAC columns),
+    quantification table `t`,
     * `t.base` is the table's method run in the command-line model (`Cli.runMethod` for a position of `--methods`,
       in the environment `Cli.setup` computed), the quantified groups are the rows that run reported, the evidence rows
       are the rows of the method's evidence files remapped through the digest map of their file's position, the iBAQ
@@ -391,15 +534,28 @@ private theorem silac_le_of_uniform (rows : List Row) (S : Nat) (hS : silacChann
       precursor, in the reported order (`output_groups`);
     * the records handed to `csv.writer` are the header list of the MaxQuant writer followed by the nine base cells,
       three annotation cells and the quantification cells of every line;
-    * every quantification column of every written row is the recomputation from the row's identified precursors:
-      the right-hand sides of `counts_recompute`, `idtype_recompute`, `intensity_recompute`,
-      `total_is_sum_of_experiments`, `ibaq_def`, `evidence_ids_sorted_exact` (`CliQuant.ColumnsRecomputed`);
+    * the columns covered, for every written row, as the recomputation from the row's identified precursors:
+      unique-peptide counts (combined and per experiment), identification type, `Intensity` per experiment and SILAC
+      channel, the total `Intensity`, `Number of theoretical peptides iBAQ`, `iBAQ` and `iBAQ` per experiment / channel,
+      `Evidence IDs`, the reporter (TMT) cells — the right-hand sides of `counts_recompute`, `idtype_recompute`,
+      `intensity_recompute`, `total_is_sum_of_experiments`, `ibaq_def`, `evidence_ids_sorted_exact`, `tmt_recompute`
+      (`CliQuant.ColumnsRecomputed`) — and the sequence-coverage cells (`CliQuant.coverageCols_eq`: the three total
+      cells are the fraction of the positions of the leading protein's sequence marked by a stripped peptide of a used
+      precursor, the per-experiment cell the fraction marked by that experiment's peptides, 0 without one; values
+      before `* 100` and `'%.1f'`).  NOT covered by a recomputation clause: the nine base cells and the three
+      annotation cells (they are `Cli.cliRow`, C06 / C19);
     * `conservation`: the `Intensity` column summed over the written rows is the sum of the intensities of the
-      evidence rows that enter a group, each once. -/
+      evidence rows that enter a group, each once.
+    UNIFORM-LAYOUT HYPOTHESES (the run reads all `--mq_evidence` files of the method into one row list; their headers
+    may differ): `huniform` — no row the parser yields carries more SILAC values than the first one (needed for the
+    intensity / iBAQ clauses and conservation, see `conservation`); `huniformTmt` — every such row carries `3 * nTmt`
+    reporter values, `nTmt` being fixed by the first row (needed for the reporter clause).  Neither follows from the
+    success of the run; both hold when all files have the same `Intensity L/M/H` and `Reporter intensity …` columns. -/
 theorem cli_quant_columns_recompute (q : CliQuant.QuantInput) (ts : List CliQuant.QTable)
     (hrun : CliQuant.quantRun q = .ok ts) (t : CliQuant.QTable) (ht : t ∈ ts)
     (p : CliQuant.QuantPart) (hp : t.quant = some p)
-    (huniform : ∀ r ∈ parsed p.rows, (r.silac.length : Int) = nSilac p.rows) :
+    (huniform : ∀ r ∈ parsed p.rows, (r.silac.length : Int) ≤ nSilac p.rows)
+    (huniformTmt : ∀ r ∈ parsed p.rows, (r.tmt.length : Int) = 3 * nTmt p.rows) :
     ∃ (env : Cli.Env) (cfgs : List C18.Cfg) (i : Nat) (name : String) (cfg : C18.Cfg) (S : Nat) (hs : List String),
       Cli.setup q.cli = .ok (env, cfgs) ∧ q.cli.methods[i]? = some name ∧ cfgs[i]? = some cfg ∧
       Cli.runMethod q.cli env (decide (cfgs.length > 1)) name cfg (q.cli.recs.getD i default) = .ok (some t.base) ∧
@@ -415,8 +571,14 @@ theorem cli_quant_columns_recompute (q : CliQuant.QuantInput) (ts : List CliQuan
       t.records = hs :: p.lines.map (fun l =>
         (CliQuant.lineRow env.ann p.seqs p.out.experiments p.out.cutoff l).toList) ∧
       (∀ l ∈ p.lines, t.base.rows[l.g]? = some l.base ∧ p.groups[l.g]? = some l.out.ids ∧
-        CliQuant.ColumnsRecomputed (experiments p.rows) S p.out.cutoff p.ibaq l.out.ids
-          (retain p.out.cutoff (attached p.rows p.groups l.g)) l.out) ∧
+        CliQuant.ColumnsRecomputed (experiments p.rows) S (nTmt p.rows) p.out.cutoff p.ibaq l.out.ids
+          (retain p.out.cutoff (attached p.rows p.groups l.g)) l.out ∧
+        CliQuant.coverageCols p.seqs p.out.experiments p.out.cutoff l.out.ids l.out.quants =
+          (let seq := (C09.lookupSeq p.seqs (l.out.ids.headD "").toList).getD []
+           let peps := CliQuant.coveragePeps p.out.experiments p.out.cutoff l.out.quants
+           let tot := CliQuant.coveredFraction seq ((List.range p.out.experiments.length).flatMap peps)
+           [tot, tot, tot] ++ (List.range p.out.experiments.length).map (fun e =>
+             if (peps e).isEmpty then 0 else CliQuant.coveredFraction seq (peps e)))) ∧
       (p.lines.map (·.out.total)).sum =
         (((parsed p.rows).filter (rowCounted p.rows p.groups p.out.cutoff)).map (fun r => r.intensity.getD 0)).sum := by
   obtain ⟨env, cfgs, i, name, cfg, hsetup, hname, hcfg, hrunq⟩ := CliQuant.quantRun_table q ts hrun t ht
@@ -427,7 +589,7 @@ theorem cli_quant_columns_recompute (q : CliQuant.QuantInput) (ts : List CliQuan
   rw [hp] at hp'
   cases hp'
   obtain ⟨-, -, hrows, hgroups, -, hibaq, hquant, hlines, hrender⟩ := CliQuant.quantPart_spec q env cfg _ p _ hpart
-  obtain ⟨S, hS, hout⟩ := (quantify_ok p.rows p.groups q.cli.psm p.ibaq p.out).mp hquant
+  obtain ⟨S, hS, -, hout⟩ := (quantify_ok p.rows p.groups q.cli.psm p.ibaq p.out).mp hquant
   obtain ⟨hs, hhs, hrecs, -⟩ := CliQuant.renderQuant_eq _ _ _ hrender
   have hlen := silac_le_of_uniform p.rows S hS huniform
   have hcut : p.out.cutoff = cutoffOf p.rows p.groups q.cli.psm := by rw [hout]; rfl
@@ -453,7 +615,7 @@ theorem cli_quant_columns_recompute (q : CliQuant.QuantInput) (ts : List CliQuan
     obtain ⟨g, hg, rfl⟩ := List.mem_map.mp hlmem
     obtain ⟨hglt, -⟩ := CliQuant.keptIdx_lt p.rows p.groups g hg
     rw [hcut]
-    refine ⟨?_, ?_, ?_⟩
+    refine ⟨?_, ?_, ?_, CliQuant.coverageCols_eq _ _ _ _ _⟩
     · show t.base.rows[g]? = some (t.base.rows.getD g default)
       have : g < t.base.rows.length := hglen ▸ hglt
       simp [List.getD_eq_getElem?_getD, List.getElem?_eq_getElem this]
@@ -466,10 +628,25 @@ theorem cli_quant_columns_recompute (q : CliQuant.QuantInput) (ts : List CliQuan
         (retain (cutoffOf p.rows p.groups q.cli.psm) (attached p.rows p.groups g))
       obtain ⟨he1, he2⟩ := evidence_ids_sorted_exact (cutoffOf p.rows p.groups q.cli.psm)
         (retain (cutoffOf p.rows p.groups q.cli.psm) (attached p.rows p.groups g))
-      exact ⟨rfl, rfl, hc0, hce,
+      have htsub : ∀ x ∈ retain (cutoffOf p.rows p.groups q.cli.psm) (attached p.rows p.groups g),
+          (x.tmt.length : Int) = 3 * nTmt p.rows := by
+        intro x hx
+        exact huniformTmt x ((mem_attached p.rows p.groups g x).mp ((mem_retain _ _ x).mp hx).1).1
+      refine ⟨rfl, rfl, hc0, hce,
         fun e he => idtype_recompute _ _ _ e he,
         fun e k he hk => intensities_slot _ S _ _ e k he hk hsub,
-        total_is_sum_of_experiments _ S _ _, rfl, rfl, rfl, he1, he2⟩
+        total_is_sum_of_experiments _ S _ _, rfl, rfl, rfl, he1, he2, ?_, ?_⟩
+      · intro hT
+        show (if nTmt p.rows > 0 then _ else []) = []
+        rw [if_neg (by omega)]
+      · intro e k he hk
+        by_cases hT : nTmt p.rows > 0
+        · show (if nTmt p.rows > 0 then tmtSums _ (nTmt p.rows).toNat _ _ else []).getD _ 0 = _
+          rw [if_pos hT]
+          exact tmt_recompute _ _ _ _ e k he hk (fun x hx => by have := htsub x hx; omega)
+        · have : (nTmt p.rows).toNat = 0 := by omega
+          rw [this] at hk
+          omega
   · have hcons := conservation p.rows p.groups q.cli.psm p.ibaq p.out hquant huniform
     rw [hcut, ← hcons]
     congr 1
@@ -494,7 +671,7 @@ theorem cli_quant_no_row_twice (q : CliQuant.QuantInput) (ts : List CliQuant.QTa
   rw [hp] at hp'
   cases hp'
   obtain ⟨-, -, -, -, -, -, hquant, hlines, -⟩ := CliQuant.quantPart_spec q env cfg _ p _ hpart
-  obtain ⟨S, -, hout⟩ := (quantify_ok p.rows p.groups q.cli.psm p.ibaq p.out).mp hquant
+  obtain ⟨S, -, -, hout⟩ := (quantify_ok p.rows p.groups q.cli.psm p.ibaq p.out).mp hquant
   have hl := CliQuant.quantLines_eq S t.base.rows p.rows p.groups q.cli.psm p.ibaq
   rw [← hout, ← hlines] at hl
   obtain ⟨huniq, hsub⟩ := no_row_twice p.rows p.groups
@@ -528,13 +705,15 @@ theorem cli_quant_rows_are_cli_rows (q : CliQuant.QuantInput) (ts : List CliQuan
 database and a five-row evidence file; the inference is `Pipeline.demo_run2`) meets every hypothesis, and its table is
 not trivial (a match-between-runs row counted, an unidentified charge state dropped, a decoy row written) -/
 example : ∃ ts t p, CliQuant.quantRun CliQuant.demoQ = .ok ts ∧ t ∈ ts ∧ t.quant = some p ∧
-    (∀ r ∈ parsed p.rows, (r.silac.length : Int) = nSilac p.rows) ∧
+    (∀ r ∈ parsed p.rows, (r.silac.length : Int) ≤ nSilac p.rows) ∧
+    (∀ r ∈ parsed p.rows, (r.tmt.length : Int) = 3 * nTmt p.rows) ∧
     p.lines.map (·.g) = [0, 1] ∧ p.lines.map (·.out.intens) = [[111, 50], [7, 0]] ∧
     p.lines.map (·.out.total) = [161, 7] ∧ p.lines.map (·.out.evidenceIds) = [[0, 1, 3], [2]] ∧
     p.rows.map (·.id) = [0, 1, 2, 3, 4] := by
   obtain ⟨t, hrun, hq, -, -⟩ := CliQuant.demo_quant_run
   obtain ⟨h1, h2, h3, -, -, h4, -⟩ := CliQuant.demo_values
-  exact ⟨[t], t, CliQuant.demoPart, hrun, by simp, hq, CliQuant.demo_uniform, h1, h2, h3, h4, by decide +kernel⟩
+  exact ⟨[t], t, CliQuant.demoPart, hrun, by simp, hq, CliQuant.demo_uniform, CliQuant.demo_uniform_tmt, h1, h2, h3, h4,
+    by decide +kernel⟩
 
 /-! ## non-vacuity: a concrete SILAC run meeting every hypothesis above
 
@@ -613,13 +792,53 @@ example : (quantifyWith 2 exRows exGroups (1/100) exIbaq).groups.map (·.evidenc
   rw [ex_groups]; decide +kernel
 example : (quantifyWith 2 exRows exGroups (1/100) exIbaq).groups.map (·.counts) = [[1, 1, 1], [1, 1, 0]] := by
   rw [ex_groups]; decide +kernel
-example : ∃ o, quantify exRows exGroups (1/100) exIbaq = .ok o := ⟨_, rfl⟩
-example : ∀ r ∈ parsed exRows, (r.silac.length : Int) = nSilac exRows := by decide +kernel
+private theorem ex_uniform_tmt : ∀ r ∈ parsed exRows, (r.tmt.length : Int) = 3 * nTmt exRows := by decide +kernel
+example : ∃ o, quantify exRows exGroups (1/100) exIbaq = .ok o :=
+  ⟨_, (quantify_ok _ _ _ _ _).mpr ⟨2, by decide +kernel,
+    uniform_layout_accepted _ 2 exRows exGroups _ _ (by decide +kernel) ex_uniform_tmt, rfl⟩⟩
+example : ∀ r ∈ parsed exRows, (r.silac.length : Int) ≤ nSilac exRows := by decide +kernel
 example : ∀ q ∈ exRows, q.silac.length ≤ 2 := by decide +kernel
 example : (experiments exRows).length = 2 := by decide +kernel
 example : ((parsed exRows).filter (rowCounted exRows exGroups (cutoffOf exRows exGroups (1/100)))).map (·.id) =
     [4, 1, 0] := by rw [ex_cutoff]; decide +kernel
 
+
+/-! non-vacuity of the mixed-layout theorems.  `la` comes from a label-free evidence file read first (`S = 0`), `sb`
+    from a later file with `Intensity L` / `Intensity H` columns (intensity 10 = 6 + 4); one reported group. -/
+private def la (e : String) (x : Rat) (i : Int) : Row :=
+  { id := i, peptide := "AAK", charge := 2, experiment := e, fraction := "-1",
+    leading := ["P1"], intensity := some x, pep := .fin (1/1000), silac := [], tmt := [] }
+private def sb (e : String) : Row :=
+  { id := 9, peptide := "CCK", charge := 2, experiment := e, fraction := "-1",
+    leading := ["P1"], intensity := some 10, pep := .fin (1/1000), silac := [6, 4], tmt := [] }
+/-- three experiments, the SILAC row in the FIRST: nothing raises, its L value lands in `Intensity E2`, its H value in
+    `Intensity E3`; the total is 120 while the intensities of the three rows sum to 110 (the hypothesis of
+    `conservation` / `intensity_recompute` fails: 2 SILAC values > S = 0) -/
+private def spillRows : List Row := [la "E2" 100 0, sb "E1", la "E3" 0 1]
+example : spillRows.all (fun q => !silacRaises ["E1", "E2", "E3"] 0 1 q) = true := by decide +kernel
+example : intensities ["E1", "E2", "E3"] 0 1 spillRows = [10, 106, 4] := by decide +kernel
+example : totalOf 0 (intensities ["E1", "E2", "E3"] 0 1 spillRows) = 120 ∧
+    (spillRows.map (fun r => r.intensity.getD 0)).sum = 110 := by decide +kernel
+/-- the SILAC row in one of the last two experiments: `IndexError` in the code, refusal in the model -/
+example : silacRaises ["E1", "E2", "E3"] 0 1 (sb "E2") = true ∧ silacRaises ["E1", "E2", "E3"] 0 1 (sb "E3") = true := by
+  decide +kernel
+/-- a whole run that is refused: label-free row first, SILAC row second, one experiment -/
+private def refusedRows : List Row := [la "E1" 100 0, sb "E1"]
+private theorem refused_cutoff : cutoffOf refusedRows [["P1"]] (1/100) = 1 := by
+  have h : C17.finites ((pepList refusedRows [["P1"]]).filter (fun p => !isMbr p)) = [1/1000, 1/1000] := by
+    decide +kernel
+  unfold cutoffOf C17.cutoff
+  rw [h, C17.sortAsc_of_sorted _ (by decide +kernel)]
+  decide +kernel
+example : quantify refusedRows [["P1"]] (1/100) [] = .error "silac_index_out_of_range" := by
+  have hS : silacChannels (nSilac refusedRows) = .ok 0 := by decide +kernel
+  unfold quantify
+  rw [hS]
+  show checked 0 (quantifyWith 0 refusedRows [["P1"]] (1/100) []) = _
+  unfold quantifyWith
+  simp only [refused_cutoff]
+  decide +kernel
+example : ¬ ∀ r ∈ parsed refusedRows, (r.silac.length : Int) ≤ nSilac refusedRows := by decide +kernel
 
 /-- a TMT precursor list meeting the hypotheses of `tmt_recompute` (one channel, three reporter columns) -/
 private def t1 : Row :=
@@ -630,6 +849,12 @@ private def t2 : Row :=
     leading := ["P1"], intensity := some 3, pep := .nan, silac := [], tmt := [2, 1, 1] }
 example : ∀ q ∈ [t1, t2], q.tmt.length = 3 * 1 := by decide +kernel
 example : tmtSums ["E1"] 1 (1/100) [t1, t2] = [9, 6, 2] := by decide +kernel
+/-- a precursor from a file with ONE reporter column: numpy broadcasts its value into all three cells (no exception);
+    two reporter values raise in the code and are refused by the model -/
+private def tmtBroadcast : Row := { t2 with tmt := [5] }
+example : tmtSums ["E1"] 1 (1/100) [t1, tmtBroadcast] = [12, 10, 6] := by decide +kernel
+example : tmtRaises ["E1"] 1 (1/100) tmtBroadcast = false ∧ tmtRaises ["E1"] 1 (1/100) { t2 with tmt := [5, 5] } = true ∧
+    tmtRaises ["E1"] 1 (1/100) { t2 with tmt := [] } = true := by decide +kernel
 
 /-! ## `--experimental_design_file` / `--file_list_file`: the experiment list in design order
 
@@ -671,13 +896,15 @@ theorem output_groups_exps (exps : List String) (S : Nat) (rows : List Row) (gro
 
 /-- the run with a design: a design without lines is the run without a design; otherwise the names must be
     pairwise different, every parsed row's raw file must have a line, `get_silac_channels` must accept the
-    column count, and the result is `quantifyWithExps` with the design's experiment list on the overridden rows -/
+    column count, no column loop may raise on rows of a different SILAC / reporter layout (`layoutError`), and the
+    result is `quantifyWithExps` with the design's experiment list on the overridden rows -/
 theorem quantify_design_ok (design : List DesignLine) (rows : List (String × Row)) (groups : List (List String))
     (level : Rat) (ibaq : List (String × Nat)) (o : Output) :
     quantifyDesign design rows groups level ibaq = .ok o ↔
       (design = [] ∧ quantify (rows.map (·.2)) groups level ibaq = .ok o) ∨
       (design ≠ [] ∧ allDistinct (design.map (·.name)) = true ∧
         ∃ rows' S, overrideRows design rows = .ok rows' ∧ silacChannels (nSilac rows') = .ok S ∧
+          layoutError S (quantifyWithExps (designExperiments design) S rows' groups level ibaq) = none ∧
           o = quantifyWithExps (designExperiments design) S rows' groups level ibaq) := by
   unfold quantifyDesign
   by_cases hd : design = []
@@ -694,8 +921,7 @@ theorem quantify_design_ok (design : List DesignLine) (rows : List (String × Ro
         cases hS : silacChannels (nSilac rows') with
         | error e => simp [hS]
         | ok S =>
-          simp only [Except.ok.injEq, exists_and_left, exists_eq_left', hS]
-          exact eq_comm
+          simp only [Except.ok.injEq, exists_and_left, exists_eq_left', hS, checked_ok]
     · have hu' : allDistinct (design.map (·.name)) = false := by simpa using hu
       simp [hu']
 
@@ -726,8 +952,9 @@ theorem design_override (d : List DesignLine) (rows : List (String × Row)) (row
 
 /-- "Per group and experiment the summed intensity …": with a duplicate-free experiment list (`experiments
     rows` and `designExperiments d` are), the slots `i*(1+S)+k` — the columns written under the headers of the
-    `i`-th name of the list — hold the sum over the used precursors WHOSE EXPERIMENT IS THAT NAME, whatever
-    the order of the list -/
+    `i`-th name of the list (`cells_under_named_headers` ties the slots to the header STRINGS) — hold the sum over the
+    used precursors WHOSE EXPERIMENT IS THAT NAME, whatever the order of the list.
+    UNIFORM-LAYOUT HYPOTHESIS `hs`: as in `intensity_recompute` (no precursor with more SILAC values than `S`). -/
 theorem intensity_by_name (exps : List String) (hn : exps.Nodup) (S : Nat) (c : Rat) (quants : List Row)
     (i k : Nat) (name : String) (hi : exps[i]? = some name) (hk : k ≤ S)
     (hs : ∀ q ∈ quants, q.silac.length ≤ S) :
@@ -767,21 +994,141 @@ theorem counts_idtype_by_name (exps : List String) (hn : exps.Nodup) (c : Rat) (
 
 /-- conservation with a design: Σ of the `Intensity` column over the reported rows = Σ of the intensities of
     the (overridden) evidence rows that enter a group, each once — no intensity is lost to an experiment
-    missing from the list, because every parsed row carries an experiment of the design -/
+    missing from the list, because every parsed row carries an experiment of the design.
+    UNIFORM-LAYOUT HYPOTHESIS (the antecedent of the last conjunct): no parsed row carries more SILAC values than
+    the first one; as in `conservation` it does not follow from the success of the run and it is necessary. -/
 theorem conservation_design (design : List DesignLine) (rows : List (String × Row)) (groups : List (List String))
     (level : Rat) (ibaq : List (String × Nat)) (o : Output) (hd : design ≠ [])
     (hrun : quantifyDesign design rows groups level ibaq = .ok o) :
     ∃ rows', overrideRows design rows = .ok rows' ∧ o.experiments = designExperiments design ∧
-      ((∀ r ∈ parsed rows', (r.silac.length : Int) = nSilac rows') →
+      ((∀ r ∈ parsed rows', (r.silac.length : Int) ≤ nSilac rows') →
         (o.groups.map (·.total)).sum =
           (((parsed rows').filter (rowCounted rows' groups (cutoffOf rows' groups level))).map
             (fun r => r.intensity.getD 0)).sum) := by
-  rcases (quantify_design_ok design rows groups level ibaq o).mp hrun with ⟨h0, -⟩ | ⟨-, -, rows', S, hr, hS, rfl⟩
+  rcases (quantify_design_ok design rows groups level ibaq o).mp hrun with ⟨h0, -⟩ | ⟨-, -, rows', S, hr, hS, -, rfl⟩
   · exact absurd h0 hd
   · refine ⟨rows', hr, rfl, ?_⟩
     intro huniform
     exact conservation_exps _ S rows' groups level ibaq (silac_le_of_uniform rows' S hS huniform)
       (overrideRows_experiment_mem design rows rows' hr)
+
+/-! ## header STRINGS: the cells under `Intensity <name>`, `iBAQ <name>`, `Unique peptides <name>`, …
+
+The by-name theorems above speak of slot positions.  The header strings are those of the C13 header functions of the
+MaxQuant writer's generators (`C13.Gen.hdrs`: `"Unique peptides " ++ e`, `"Identification type " ++ e`,
+`"Intensity " ++ e`, `"Intensity " ++ channel ++ " " ++ e`, `"iBAQ " ++ e`, …), assembled by `CliQuant.quantHeaders`
+exactly as for the command-line table; the cells of a row are `CliQuant.quantCells` (the writer's order);
+`CliQuant.cellUnder hs row h` is the cell of `row` in the column whose header is `h`.  A swap between header order and
+value order, or a header list built from another experiment order than the value lists, falsifies these statements. -/
+
+/-- "Per group and experiment the summed intensity, iBAQ …, unique-peptide counts, identification type … equal a
+    direct recomputation from those precursors" — read BY HEADER NAME: in a written row (`pre`: nine base cells and
+    three annotation cells, then the quantification cells) under the header list the writer's generators build for the
+    experiment list `exps` (duplicate-free) and the channel numbers `s`, `T`, and for every experiment `name` of the list:
+    the cell under `Unique peptides <name>` is the number of distinct peptides of the used precursors whose experiment is
+    `name`, the cell under `Identification type <name>` their type, the cell under `Intensity <name>` the sum of their
+    intensities (exact rational, formatted `'%.0f'` by the writer), the cell under `iBAQ <name>` that sum divided by
+    `max 1 n(leading protein)`, and the cells under `Intensity <channel> <name>` / `iBAQ <channel> <name>` the same for
+    the `k`-th SILAC value.
+    UNIFORM-LAYOUT HYPOTHESIS `hlay`: no precursor of the row carries more SILAC values than `S` (see
+    `intensity_recompute`); it is used by the four intensity / iBAQ clauses only. -/
+theorem cells_under_named_headers (exps : List String) (hn : exps.Nodup) (s T : Int) (S : Nat)
+    (hS : silacChannels s = .ok S) (c : Rat) (ibaq : List (String × Nat)) (ids : List String)
+    (quants : List Row) (seqs : C09.SeqMap) (pre : List String) (hpre : pre.length = 12) (hs : List String)
+    (hhs : CliQuant.quantHeaders { experiments := exps, silac := s, tmt := T } = .ok hs)
+    (hlay : ∀ q ∈ quants, q.silac.length ≤ S)
+    (i : Nat) (name : String) (hi : exps[i]? = some name) :
+    let row := pre ++ CliQuant.quantCells seqs exps c (groupOut exps S T c ibaq ids quants)
+    let sumOf := fun (f : Row → Rat) => ((quants.filter (fun q =>
+      q.intensity.isSome && (isMbr q.pep || leCut q.pep c) && (q.experiment == name))).map f).sum
+    let lead : Rat := ((max 1 ((ids.map (nPepsOf ibaq)).headD 0) : Nat) : Rat)
+    CliQuant.cellUnder hs row ("Unique peptides " ++ name) =
+      some (toString ((quants.filter (fun q => used c q && (q.experiment == name))).map (·.peptide)).toFinset.card) ∧
+    CliQuant.cellUnder hs row ("Identification type " ++ name) =
+      some (if quants.any (fun q => (q.experiment == name) && leCut q.pep c) then "By MS/MS"
+            else if quants.any (fun q => (q.experiment == name) && isMbr q.pep) then "By matching" else "") ∧
+    CliQuant.cellUnder hs row ("Intensity " ++ name) = some (Cli.ratCell (sumOf (fun q => q.intensity.getD 0))) ∧
+    CliQuant.cellUnder hs row ("iBAQ " ++ name) = some (Cli.ratCell (sumOf (fun q => q.intensity.getD 0) / lead)) ∧
+    ∀ ch, C13.silacChannels s = .ok ch → ∀ k chName, ch[k]? = some chName →
+      CliQuant.cellUnder hs row ("Intensity " ++ chName ++ " " ++ name) =
+        some (Cli.ratCell (sumOf (fun q => q.silac.getD k 0))) ∧
+      CliQuant.cellUnder hs row ("iBAQ " ++ chName ++ " " ++ name) =
+        some (Cli.ratCell (sumOf (fun q => q.silac.getD k 0) / lead)) := by
+  intro row sumOf lead
+  obtain ⟨h1, h2, h3, h4, h5⟩ := CliQuant.cells_are_slots exps s T S hS c ibaq ids quants seqs pre hpre hs hhs i name hi
+  obtain ⟨hc, ht⟩ := counts_idtype_by_name exps hn c quants i name hi
+  have hI := intensity_by_name exps hn S c quants i 0 name hi (Nat.zero_le _) hlay
+  refine ⟨by rw [h1, hc], by rw [h2, ht], ?_, ?_, ?_⟩
+  · rw [h3]; exact congrArg (fun x => some (Cli.ratCell x)) hI
+  · rw [h4]; exact congrArg (fun x => some (Cli.ratCell (x / lead))) hI
+  · intro ch hch k chName hk
+    have hkl : k < S := by
+      have hl := CliQuant.silac_names_length s S ch hS hch
+      by_contra hcon
+      rw [List.getElem?_eq_none (by omega)] at hk
+      cases hk
+    obtain ⟨h6, h7⟩ := h5 ch hch k chName hk
+    have hK := intensity_by_name exps hn S c quants i (k + 1) name hi (by omega) hlay
+    exact ⟨by rw [h6]; exact congrArg (fun x => some (Cli.ratCell x)) hK,
+      by rw [h7]; exact congrArg (fun x => some (Cli.ratCell (x / lead))) hK⟩
+
+/-- the same for the table of a run WITH an experimental design / file list (`CliQuant.outputTable` of the result of
+    `quantifyDesign`): the header list is built from the design's experiments in first-occurrence order, and in every
+    record the cell under `Intensity <name>` (`iBAQ <name>`, `Unique peptides <name>`, `Identification type <name>`,
+    `Intensity <channel> <name>`) is the recomputation over the identified precursors of the record's group whose
+    experiment — as overridden through the raw-file mapping — is `name`, for every experiment `name` of the design (also
+    one without rows: 0 / empty type).
+    UNIFORM-LAYOUT HYPOTHESIS (antecedent of the last conjunct): no parsed row carries more SILAC values than the first. -/
+theorem design_cells_under_named_headers (design : List DesignLine) (rows : List (String × Row))
+    (groups : List (List String)) (level : Rat) (ibaq : List (String × Nat)) (o : Output) (hd : design ≠ [])
+    (hrun : quantifyDesign design rows groups level ibaq = .ok o)
+    (pre : GroupOut → List String) (hpre : ∀ g, (pre g).length = 12) (seqs : C09.SeqMap)
+    (hs : List String) (records : List (List String))
+    (htab : CliQuant.outputTable pre seqs o = .ok (hs, records)) :
+    ∃ rows' S, overrideRows design rows = .ok rows' ∧ silacChannels (nSilac rows') = .ok S ∧
+      o.experiments = designExperiments design ∧
+      CliQuant.quantHeaders (CliQuant.ctxOf o) = .ok hs ∧
+      records = o.groups.map (fun g => pre g ++ CliQuant.quantCells seqs o.experiments o.cutoff g) ∧
+      ((∀ r ∈ parsed rows', (r.silac.length : Int) ≤ nSilac rows') →
+        ∀ g ∈ o.groups, ∀ (i : Nat) (name : String), (designExperiments design)[i]? = some name →
+          let row := pre g ++ CliQuant.quantCells seqs o.experiments o.cutoff g
+          let sumOf := fun (f : Row → Rat) => ((g.quants.filter (fun q =>
+            q.intensity.isSome && (isMbr q.pep || leCut q.pep o.cutoff) && (q.experiment == name))).map f).sum
+          let lead : Rat := ((max 1 ((g.ids.map (nPepsOf ibaq)).headD 0) : Nat) : Rat)
+          CliQuant.cellUnder hs row ("Unique peptides " ++ name) =
+            some (toString ((g.quants.filter (fun q => used o.cutoff q && (q.experiment == name))).map
+              (·.peptide)).toFinset.card) ∧
+          CliQuant.cellUnder hs row ("Identification type " ++ name) =
+            some (if g.quants.any (fun q => (q.experiment == name) && leCut q.pep o.cutoff) then "By MS/MS"
+                  else if g.quants.any (fun q => (q.experiment == name) && isMbr q.pep) then "By matching" else "") ∧
+          CliQuant.cellUnder hs row ("Intensity " ++ name) = some (Cli.ratCell (sumOf (fun q => q.intensity.getD 0))) ∧
+          CliQuant.cellUnder hs row ("iBAQ " ++ name) =
+            some (Cli.ratCell (sumOf (fun q => q.intensity.getD 0) / lead)) ∧
+          ∀ ch, C13.silacChannels (nSilac rows') = .ok ch → ∀ k chName, ch[k]? = some chName →
+            CliQuant.cellUnder hs row ("Intensity " ++ chName ++ " " ++ name) =
+              some (Cli.ratCell (sumOf (fun q => q.silac.getD k 0))) ∧
+            CliQuant.cellUnder hs row ("iBAQ " ++ chName ++ " " ++ name) =
+              some (Cli.ratCell (sumOf (fun q => q.silac.getD k 0) / lead))) := by
+  rcases (quantify_design_ok design rows groups level ibaq o).mp hrun with ⟨h0, -⟩ | ⟨-, -, rows', S, hr, hS, -, rfl⟩
+  · exact absurd h0 hd
+  unfold CliQuant.outputTable at htab
+  cases hq : CliQuant.quantHeaders (CliQuant.ctxOf (quantifyWithExps (designExperiments design) S rows' groups level ibaq)) with
+  | error e => rw [hq] at htab; simp at htab
+  | ok hs' =>
+    rw [hq] at htab
+    simp only [Except.ok.injEq, Prod.mk.injEq] at htab
+    obtain ⟨rfl, rfl⟩ := htab
+    refine ⟨rows', S, hr, hS, rfl, rfl, rfl, ?_⟩
+    intro huniform g hg i name hi
+    have hg' : g ∈ (keptIdx rows' groups).map (fun j => groupOut (designExperiments design) S (nTmt rows')
+        (cutoffOf rows' groups level) ibaq (groups.getD j []) (retain (cutoffOf rows' groups level) (attached rows' groups j))) := hg
+    obtain ⟨j, -, rfl⟩ := List.mem_map.mp hg'
+    have hlay : ∀ q ∈ retain (cutoffOf rows' groups level) (attached rows' groups j), q.silac.length ≤ S := by
+      intro q hq'
+      exact silac_le_of_uniform rows' S hS huniform q
+        ((mem_attached rows' groups j q).mp ((mem_retain _ _ q).mp hq').1).1
+    exact cells_under_named_headers (designExperiments design) (designExperiments_nodup design) (nSilac rows')
+      (nTmt rows') S hS (cutoffOf rows' groups level) ibaq (groups.getD j []) _ seqs _ (hpre _) hs' hq hlay i name hi
 
 /-! non-vacuity: the example rows above with raw files, and a design that lists the experiments in
     non-alphabetical order (`treated`, `control`, `alpha` — `alpha` without any row) -/
@@ -797,10 +1144,27 @@ example : (match overrideRows exDesign exRaw with
     | .error _ => []) =
     [(4, "treated", "1"), (1, "control", "1.0"), (2, "control", "1.0"), (0, "treated", "2"), (3, "treated", "2")] := by
   decide +kernel
+private def exRows' : List Row :=
+  match overrideRows exDesign exRaw with
+  | .ok rs => rs
+  | .error _ => []
 example : ∃ o, quantifyDesign exDesign exRaw exGroups (1/100) exIbaq = .ok o ∧
-    o.experiments = ["treated", "control", "alpha"] := ⟨_, rfl, by decide +kernel⟩
+    o.experiments = ["treated", "control", "alpha"] :=
+  ⟨_, (quantify_design_ok _ _ _ _ _ _).mpr (Or.inr ⟨by decide +kernel, by decide +kernel, exRows', 2,
+    by decide +kernel, by decide +kernel,
+    uniform_layout_accepted _ 2 exRows' exGroups _ _ (by decide +kernel) (by decide +kernel), rfl⟩),
+   by decide +kernel⟩
 example : (["treated", "control", "alpha"] : List String).Nodup ∧
     (["treated", "control", "alpha"] : List String)[1]? = some "control" := by decide +kernel
 example : overrideRows exDesign [("raw9", r1)] = .error "raw_file_not_in_design" := by decide +kernel
+/-- the header list of the example design run exists (47 headers) and the named columns sit where the value lists
+    put the design's second experiment: `Intensity control` at 23 = 12 + 4 + 3 + 1 + 1·3, its `H` channel at 25,
+    `iBAQ alpha` (the experiment without rows) at 37; a design whose names collide with a channel header
+    (`L E1` next to `E1` with SILAC) has no header list — the code raises on the duplicate header -/
+example : (CliQuant.quantHeaders { experiments := ["treated", "control", "alpha"], silac := 2, tmt := 0 }).toOption.map
+    (fun hs => (hs.length, hs.idxOf "Intensity control", hs.idxOf "Intensity H control", hs.idxOf "iBAQ alpha")) =
+    some (47, 23, 25, 37) := by decide +kernel
+example : (CliQuant.quantHeaders { experiments := ["E1", "L E1"], silac := 2, tmt := 0 }).toOption = none := by
+  decide +kernel
 
 end PgFdr.C12
